@@ -154,20 +154,25 @@ class reusable_storage_mtsafe: public reusable_storage {
 public:
     void *alloc(std::size_t sz)  {
         void *p;
-        if (_busy.exchange(true, std::memory_order_relaxed)) {
+        //acquire: the block (and _ptr, _capacity) was used by the previous holder
+        bool shared = !_busy.exchange(true, std::memory_order_acquire);
+        if (!shared) {
             p = ::operator new(sz+sizeof(reusable_storage_mtsafe **));
         } else {
             p = reusable_storage::alloc(sz+sizeof(reusable_storage_mtsafe **));
         }
         auto s = reinterpret_cast<reusable_storage_mtsafe **>(reinterpret_cast<char *>(p) + sz);
-        *s = this;
+        //only the holder of the shared block records the storage, so dealloc() of
+        //a fallback block needs not to inspect _ptr, which the holder can change
+        *s = shared?this:nullptr;
         return p;
     }
     static void dealloc(void *ptr, std::size_t sz) {
         auto s = reinterpret_cast<reusable_storage_mtsafe **>(reinterpret_cast<char *>(ptr) + sz);
         auto me = *s;
-        if (ptr == me->_ptr) {
-            me->_busy.store(false, std::memory_order_relaxed);
+        if (me) {
+            //release: the next holder reuses the block
+            me->_busy.store(false, std::memory_order_release);
         } else {
             ::operator delete(ptr);
         }
